@@ -234,6 +234,10 @@ func (m *Muxer) WriteData(d *MuxerData) (int, error) {
 		}
 
 		if writeAf {
+			// A negative stuffing length is no stuffing (a call that failed may have left one behind)
+			if d.AdaptationField.StuffingLength < 0 {
+				d.AdaptationField.StuffingLength = 0
+			}
 			pkt.AdaptationField = d.AdaptationField
 			// length byte included. The size is not computed on 8 bits, an adaptation field that is too big must not be taken
 			// for a small one
